@@ -54,6 +54,14 @@ def check_resync(prefix, out, type_, v):
     data = list(prefix) + enc
     rt = len(enc) == 1 and enc[0] >= 0xf8
     stray = [] if rt else [0x00, 0x7f, 0xf7]
+    try:
+        first = mido.parse(iter(data)) if not out else None
+        allm = mido.parse_all(b for b in data)
+    except Exception as e:
+        return 'raises/' + type(e).__name__, 'parse/parse_all on an iterator raised %r' % (e,)
+    if [list(x.bytes()) for x in allm] != out + [enc] or (not out and not (first == M)):
+        return 'message-lost', 'parse_all(generator) gave %r, parse(iterator) %r; expected %r then %r' % (
+            allm, first, out, M)
     ways = [('feed', [data]), ('feed_byte', None), ('feed/bytes', [bytes(data)]),
             ('feed/parts', [list(prefix), enc, stray]),
             ('feed/parts/bytes', [bytes(prefix), bytearray(enc), bytes(stray)])]
